@@ -532,7 +532,7 @@ def gen_fusion_history(rng):
             decl[c] = ["K", "M", "N"]
             exprs.append("%s[k, m, n] = X%d[k, m, n] * %s[k, m, n]" % (o, i - 1, c))
         outs.append(o)
-    lo, st, bindings = {}, {}, {}
+    lo, st, bindings, part = {}, {}, {}, {}
     base_lo = classes._perm(rng, ["K", "M", "N"])
     base_space = rng.randint(0, 2)
     for i, o in enumerate(outs):
@@ -554,6 +554,16 @@ def gen_fusion_history(rng):
             time = list(st[outs[i - 1]]["time"])
         lo[o] = list(perm)
         st[o] = {"space": space, "time": time}
+        flat = None
+        if i and rng.random() < 0.2 and perm[2] in space + time:
+            # this Einsum flattens its two outer loop ranks: its temporal prefix ["KM"] is a different list than
+            # a neighbour's ["K", "M"]
+            flat = perm[0] + perm[1]
+            part[o] = {"(%s, %s)" % (perm[0], perm[1]): ["flatten()"]}
+            lo[o] = [flat, perm[2]]
+            sp = [flat] if (perm[0] in space or perm[1] in space) else []
+            sp += [perm[2]] if perm[2] in space else []
+            st[o] = {"space": sp, "time": [r for r in lo[o] if r not in sp]}
         cfg = "cfgA" if rng.random() < 0.75 else "cfgB"
         bl = [{"config": cfg, "prefix": "tmp/" + o}]
         isect = False
@@ -568,14 +578,14 @@ def gen_fusion_history(rng):
                 if isect:
                     continue
                 isect = True
-                b = {"rank": rng.choice(perm)}
+                b = {"rank": rng.choice(lo[o])}
                 if c == "LF":
                     b["leader"] = "A" if i == 0 else "X%d" % (i - 1)
                     if i == 0:
                         b["rank"] = "K"
                 bl.append({"component": c, "bindings": [b]})
             else:
-                bl.append({"component": "Seq", "bindings": [{"rank": r} for r in perm[:rng.randint(1, 3)]]})
+                bl.append({"component": "Seq", "bindings": [{"rank": r} for r in lo[o][:rng.randint(1, len(lo[o]))]]})
         if rng.random() < 0.15:
             # a component that is named but bound to nothing must not count as "bound"
             if not any(x.get("component") == "Mul1" for x in bl):
@@ -591,7 +601,7 @@ def gen_fusion_history(rng):
         rng.shuffle(items)
         bindings = dict(items)
     arch, ainfo = _arch(rng)
-    spec = {"decl": decl, "exprs": exprs, "rank_order": None, "partitioning": None, "loop_order": lo,
+    spec = {"decl": decl, "exprs": exprs, "rank_order": None, "partitioning": part or None, "loop_order": lo,
             "spacetime": st, "arch": arch, "bindings": bindings, "format": None}
     meta = {"class": "F", "mkind": "fusion", "n": n, "syms": {}, "extents": {"K": 2, "M": 2, "N": 2}, "mode": "metrics"}
     return spec, meta
